@@ -93,8 +93,10 @@ class FakeOsMod:
 CERT = {"absent": None, "NONE": _ssl.CERT_NONE, "OPTIONAL": _ssl.CERT_OPTIONAL, "REQUIRED": _ssl.CERT_REQUIRED}
 
 
-def s_cfg(secure, proxied):
+def s_cfg(secure, proxied, host="origin.example"):
+    """host: the URL's host - a DNS name, an IPv4 literal or a bracketed IPv6 literal (the defaults hold for every kind of host)"""
     quiet_logging()
+    bare = host[1:-1] if host.startswith("[") else host
     import os as real_os
     import websocket
     import websocket._http as H
@@ -155,7 +157,7 @@ def s_cfg(secure, proxied):
     ws, err = None, None
     try:
         try:
-            ws = websocket.create_connection(("wss" if secure else "ws") + "://origin.example/chat", timeout=5, **opts)
+            ws = websocket.create_connection(("wss" if secure else "ws") + "://" + host + "/chat", timeout=5, **opts)
         except (websocket.WebSocketException, ValueError, _ssl.SSLError) as e:
             err = e
         except (sx.Control, sx.ConcreteFailure, sx.ReplayMismatch):
@@ -168,6 +170,8 @@ def s_cfg(secure, proxied):
         k.shutdown()
         simnet.uninstall()
     cfg = dict(cert_reqs=cr, check_hostname=str(ch), ca=str(ca), cp=str(cp), sh=str(sh), env=env_kind, extra=extra, secure=secure, proxied=proxied)
+    if host != "origin.example":
+        cfg["host"] = host
     wraps = REC["wraps"]
     if not secure:
         sx.require(len(wraps) == 0, "ws:// targets are never wrapped in TLS", **cfg)
@@ -190,14 +194,14 @@ def s_cfg(secure, proxied):
     w = wraps[0]
     sent = w["sent_before"]
     if proxied:
-        sx.require(sent.startswith(b"CONNECT origin.example:443 HTTP/1.1\r\n") and b"GET " not in sent,
+        sx.require(sent.startswith(b"CONNECT " + bare.encode() + b":443 HTTP/1.1\r\n") and b"GET " not in sent,
                    "through a proxy only the CONNECT exchange precedes TLS", **cfg)
     else:
         sx.require(len(sent) == 0, "the byte stream is TLS from its first byte (nothing written before wrap_socket)", **cfg)
-    sx.require(w["server_hostname"] == (sh or "origin.example"), "server_hostname is the URL's host unless the server_hostname option overrides it", **cfg)
+    sx.require(w["server_hostname"] == (sh or bare), "server_hostname is the URL's host unless the server_hostname option overrides it", **cfg)
     if extra == "context":
         sx.require(w["ctx"] is user_ctx, "a user-supplied context is used as given", **cfg)
-        sx.require(user_ctx.calls == [("wrap_socket", sh or "origin.example")], "a user-supplied context is not modified", got=str(user_ctx.calls), **cfg)
+        sx.require(user_ctx.calls == [("wrap_socket", sh or bare)], "a user-supplied context is not modified", got=str(user_ctx.calls), **cfg)
         cover("user-context")
         return
     ctx = w["ctx"]
@@ -557,10 +561,11 @@ def s_upgrade(port, conn_hdr, hops):
 def obligations(tier):
     thr = list(PAIR_CFGS) if tier == "thorough" else ["default", "nohost", "certnone", "althost", "ciphers", "cafile"]
     return [
-        Obligation("S-cfg", s_cfg, [dict(secure=s, proxied=p) for s in (False, True) for p in (False, True)],
+        Obligation("S-cfg", s_cfg, [dict(secure=s, proxied=p) for s in (False, True) for p in (False, True)] +
+                   [dict(secure=True, proxied=p, host=h) for h in ("192.0.2.7", "[2001:db8::1]") for p in ((False, True) if tier == "thorough" else (False,))],
                    bounds="full product: cert_reqs {absent, NONE, OPTIONAL, REQUIRED} x check_hostname {absent, True, False} x ca_certs x ca_cert_path x "
                           "server_hostname x WEBSOCKET_CLIENT_CA_BUNDLE {unset, file, dir, neither} x {no extra, user context, certfile, ciphers, ssl_version = TLS_CLIENT / TLS / TLSv1_2} "
-                          "x ws/wss x direct/HTTP proxy (10752 configurations)",
+                          "x ws/wss x direct/HTTP proxy (10752 configurations); the wss product also for an IPv4-literal and a bracketed IPv6-literal host",
                    outside=["acceptance/rejection of certificates by OpenSSL (C, FFI, live I/O)"],
                    must_cover=["plain", "tls", "default-verified", "user-context", "contradictory"], budget_s=1800, step_budget=200000,
                    kernel=["_http.connect", "_ssl_socket", "_wrap_sni_socket", "_tunnel", "_get_addrinfo_list"]),
